@@ -27,7 +27,8 @@ RULE = (
     "NaN/inf/huge floats, numeric strings, bytes, tuples/sets/generators, Decimal/Fraction, attribute objects, exception "
     "instances and classes, unknown/foreign runtime types), also for list items and abstract values; in half of the cases harness "
     "type resolvers (field / type / engine level) answer adversarially per call (any type name, schema type objects of possible, "
-    "impossible and non-object types, garbage); per-field concurrency overrides. Oracle = validity "
+    "impossible and non-object types, garbage); per-field concurrency overrides; leaf lists of 130 / 513 / 530 / 1025 items; "
+    "BaseException-only instances as values. Oracle = validity "
     "predicate: execute returns, response is strict-JSON serialisable, non-null data has exactly the collected response keys "
     "(in order) for some possible runtime type, lists where declared, no null at non-null, leaves of the declared wire "
     "kind, every null where the resolver returned a value is covered by an error at or below it. Distinct = SHA-1 of the "
@@ -84,6 +85,12 @@ def build(r):
         return {"ValueError": ValueError, "KeyError": KeyError, "Exception": Exception}[r[1]]
     if k == "complex":
         return complex(r[1], r[2])
+    if k == "baseexc":
+        # instances of exception classes outside the Exception hierarchy, as *values* (e.g. an item of
+        # asyncio.gather(..., return_exceptions=True) handed on by a resolver)
+        import asyncio
+
+        return {"CancelledError": asyncio.CancelledError, "GeneratorExit": GeneratorExit}[r[1]]()
     if k == "pyenum":
         # member of a python Enum (plain, or with a str / int mixin) named r[2] with value r[3]
         import enum
@@ -101,7 +108,7 @@ ADV_STRS = ["", " ", "0", "1", "-1", "5.0", "1e3", "0x10", "2147483648", "nan", 
 
 def gen_adversarial(c, schema, depth=0):
     k = c.weighted([(10, "int"), (10, "float"), (10, "str"), (4, "bool"), (3, "none"), (3, "bytes"), (4, "list"), (3, "tuple"),
-                    (2, "set"), (2, "gen"), (4, "dict"), (3, "decimal"), (2, "fraction"), (3, "obj"), (2, "named_obj"), (3, "exc"), (2, "excobj"), (2, "exccls"), (1, "complex"), (3, "pyenum")])
+                    (2, "set"), (2, "gen"), (4, "dict"), (3, "decimal"), (2, "fraction"), (3, "obj"), (2, "named_obj"), (3, "exc"), (2, "excobj"), (2, "exccls"), (1, "complex"), (3, "pyenum"), (2, "baseexc")])
     if k == "int":
         return ["int", c.choice(ADV_INTS)]
     if k == "float":
@@ -146,6 +153,8 @@ def gen_adversarial(c, schema, depth=0):
         return ["exccls", c.choice(["ValueError", "Exception"])]
     if k == "pyenum":
         return gen_pyenum(c, schema)
+    if k == "baseexc":
+        return ["baseexc", c.choice(["CancelledError", "GeneratorExit"])]
     return ["complex", 1, 2]
 
 
@@ -192,6 +201,10 @@ def gen_welltyped_nn(c, schema, t, depth, mix):
         t = t[1]
     if t[0] == "L":
         n = c.int(0, 3 if depth < 2 else 1)
+        inner = t[1][1] if t[1][0] == "NN" else t[1]
+        if depth == 0 and inner[0] == "N" and kind_of(schema, inner[1]) in ("SCALAR", "ENUM") and c.maybe(3):
+            n = c.choice([130, 513, 530, 1025])  # beyond any batch size the engine may use internally; ill-typed items anywhere
+            return ["list", [gen_mixed(c, schema, t[1], depth + 1, 6) for _ in range(n)]]
         return ["list", [gen_mixed(c, schema, t[1], depth + 1, mix // 2) for _ in range(n)]]
     name = t[1]
     k = kind_of(schema, name)
@@ -452,7 +465,9 @@ def check(spec, chooser=None, h=None):
 
     try:
         resp = run_async(go())
-    except Exception as e:  # noqa
+    except (KeyboardInterrupt, SystemExit):
+        raise
+    except BaseException as e:  # noqa - "execute never raises", whatever the class of what escaped
         spec["returns"] = h.returns
         raise Violation(spec, "execute raised %r\nquery:\n%s\nreturns=%r" % (e, printed.text, h.returns), tag="raised")
     spec["returns"] = h.returns
@@ -526,7 +541,7 @@ def case(c, stats):
         ex = Executor(schema, spec["doc"], None)
         for key, r in spec["returns"].items():
             kinds.add(("type_answer:" if key.startswith("T:") else "ret:") + r[0])
-        ill = sum(1 for r in spec["returns"].values() if r[0] in ("bytes", "tuple", "set", "gen", "decimal", "fraction", "exc", "excobj", "exccls", "complex", "named_obj", "pyenum") or (r[0] == "float" and r[1] in ("nan", "inf", "-inf")))
+        ill = sum(1 for r in spec["returns"].values() if r[0] in ("bytes", "tuple", "set", "gen", "decimal", "fraction", "exc", "excobj", "exccls", "complex", "named_obj", "pyenum", "baseexc") or (r[0] == "float" and r[1] in ("nan", "inf", "-inf")))
         nontrivial = ill >= 1 and n_good >= 1
         stats.case({"schema": schema, "doc": spec["doc"], "returns": spec["returns"], "v": spec["variables"]}, nontrivial, sorted(kinds),
                    {"query": print_document(spec["doc"]).text, "returns": spec["returns"]})
